@@ -39,6 +39,6 @@ func init() {
 		// AddVar tests names against the imports through searchImport: it must see the current qualifiers
 		searchLiveTable(c)
 		c.Run.Floor("G-RESERVED/covers", 40)
-		c.RunSkeletons(SkelOpts{Rules: []string{"G-SCOPE", "K-RECORD/literal"}, Env: smallEnv})
+		c.RunSkeletons(SkelOpts{Rules: []string{"G-SCOPE", "K-RECORD/literal", "G-DATA/name-final"}, Env: smallEnv})
 	})
 }
